@@ -200,7 +200,7 @@ func (env *Env) ident(name string) Value {
 	if v, ok := env.vars[name]; ok {
 		// inside a loop (invariants, measures, loop frames) a reassigned parameter means its current value;
 		// everywhere else a parameter name means the value passed in
-		if env.fr != nil && env.fr.curLoop != nil && env.st != env.old {
+		if env.fr != nil && (env.fr.curLoop != nil || env.ex.paramsCurrent) && env.st != env.old {
 			if a := paramSpill(env.fr.fn, name); a != nil {
 				t := derefType(a.Type())
 				if a.Heap {
